@@ -247,6 +247,47 @@ def points(tier: str) -> List[dict]:
     P.append({"spec": {"model": "sudoku", "givens": SUDOKU_3}, "count": 1})
     P.append({"spec": {"model": "alpha"}, "count": 1, "slow": True})
     P.append({"spec": {"model": "donald"}, "count": 1})
+    P.extend(program_points(th))
+    return P
+
+
+def program_points(th: bool) -> List[dict]:
+    """The shipped example PROGRAMS (python -m nucs.examples.<x> <arguments>), executed as shipped: their own solver
+    configuration, decision domains, heuristic parameters, custom consistency algorithm and split over processors."""
+    P = []
+
+    def prog(model, module, argv, **kw):
+        spec = dict(kw.pop("spec", {}), model=model, main="nucs.examples." + module, argv=argv)
+        P.append(dict(kw, spec=spec, program=True, fix_cons=True, fix_heur=True))
+
+    for n, extra in ((4, []), (6, ["--ff"]), (5, ["--shaving"]), (7, ["--processors", 2]), (8, ["--processors", 3, "--shaving", "--ff"]),
+                     (8, ["--processors", 4]), (6, ["--processors", 8])) + (((10, ["--processors", 5]), (9, ["--shaving", "--processors", 2])) if th else ()):
+        prog("queens", "queens", ["-n", n] + extra, spec={"n": n}, count=QUEENS[n])
+    for n in (4, 7, 10, 20) + ((50, 100) if th else ()):
+        prog("magic_sequence", "magic_sequence", ["-n", n], spec={"n": n}, count=MAGIC_SEQUENCE.get(n, 1))
+    for n, sym in ((5, True), (6, True), (6, False)) + (((8, True),) if th else ()):
+        prog("golomb", "golomb", ["-n", n] + ([] if sym else ["--no-symmetry_breaking"]), spec={"n": n, "sym": sym}, optimum=GOLOMB[n])
+    w, cap, best = KNAPSACK_TEST
+    prog("knapsack", "knapsack", [], spec={"weights": w, "volumes": w, "capacity": cap}, optimum=best)
+    prog("alpha", "alpha", [], count=1)
+    prog("donald", "donald", [], count=1, stats_printed_before_solving=True)
+    for (v, b, r, k, l), sym in (((7, 7, 3, 3, 1), True), ((6, 10, 5, 3, 2), True), ((4, 6, 3, 2, 1), False), ((3, 3, 2, 2, 1), False)):
+        prog("bibd", "bibd", ["-v", v, "-b", b, "-r", r, "-k", k, "-l", l] + ([] if sym else ["--no-symmetry_breaking"]),
+             spec={"v": v, "b": b, "r": r, "k": k, "l": l, "sym": sym, "brute": not sym}, **({"sat": True} if sym else {"count": "brute"}))
+    prog("magic_square", "magic_square", ["-n", 3], spec={"n": 3, "sym": True}, count=1)
+    prog("magic_square", "magic_square", ["-n", 3, "--no-symmetry_breaking"], spec={"n": 3, "sym": False}, count=8)
+    prog("magic_square", "magic_square", ["-n", 4], spec={"n": 4, "sym": True}, count=880)
+    prog("qg5", "quasigroup", ["-n", 7], spec={"n": 7, "sym": True}, count=3)
+    prog("qg5", "quasigroup", ["-n", 8], spec={"n": 8, "sym": True}, count=1)
+    prog("qg5", "quasigroup", ["-n", 5, "--no-symmetry_breaking"], spec={"n": 5, "sym": False, "brute": True}, count="brute")
+    prog("schur", "schur_lemma", ["-n", 13], spec={"n": 13, "sym": True}, sat=True)
+    prog("schur", "schur_lemma", ["-n", 14], spec={"n": 14, "sym": True}, sat=False)
+    prog("schur", "schur_lemma", ["-n", 13, "--no-symmetry_breaking"], spec={"n": 13, "sym": False}, count=18)
+    for n in (6, 8):
+        prog("sports", "sports_tournament_scheduling", ["-n", n], spec={"n": n, "sym": True}, sat=True, first_only=True)
+    prog("sports", "sports_tournament_scheduling", ["-n", 6, "--no-symmetry_breaking"], spec={"n": 6, "sym": False}, sat=True, first_only=True)
+    if th:
+        prog("tsp", "tsp", ["--name", "GR17"], spec={"costs": "GR17"}, optimum=2085)
     return P
 
 
@@ -369,6 +410,12 @@ def run(ch: Choices, focus: str = "C20", params: Optional[dict] = None) -> dict:
         if not any(v["oracle"] == oracle for v in V):
             V.append({"property": focus, "oracle": oracle, "message": msg})
 
+    if focus == "C13" and pt.get("program"):
+        out["nontrivial"] = False  # a program is run as shipped: there is no model object to rewrite before it runs
+        out["log_sha"] = sha([spec, "program point skipped under C13"])
+        out["key"] = sha(spec)[:16]
+        out["sample"] = {"spec": spec, "skipped": True}
+        return out
     if focus == "C13":
         with ch.scope("rewrite"):
             spec["rewrite"] = {"seed": 1 + ch.choose(10000, "seed"), "shuffle": ch.chance(2, 3, "shuffle"),
@@ -386,11 +433,14 @@ def run(ch: Choices, focus: str = "C20", params: Optional[dict] = None) -> dict:
                 if not pt.get("fix_var_h"):
                     cfg["var_h"] = ch.choose(3, "var_h")
                 cfg["dom_h"] = ch.choose(4, "dom_h")
-            if spec["model"] not in ("tsp",) and not spec.get("limit"):
+            if spec["model"] not in ("tsp",) and not spec.get("limit") and not pt.get("program"):
                 spec["workers"] = ch.choose(5, "workers")
                 if spec["workers"]:
                     spec["split_var"] = ch.choose(3, "split_var")
                     spec["seed"] = 1 + ch.choose(1000, "mpseed")
+    if pt.get("program"):
+        spec["seed"] = 1 + variant  # the interleaving of the simulated processes when the program uses several
+        out["probes"]["example_programs_run_as_shipped"] += 1
     spec["cfg"] = cfg
     res = execute(spec)
     ctx = f"[{ {k: v for k, v in spec.items() if k not in ('givens', 'costs', 'weights', 'volumes', 'fix_solution', 'fix_many')} }] "
@@ -419,6 +469,19 @@ def run(ch: Choices, focus: str = "C20", params: Optional[dict] = None) -> dict:
         want = pt.get("count")
         if want == "brute":
             want = res.get("brute")
+        if pt.get("program"):
+            kind = "optimisation" if pt.get("optimum") is not None else "enumeration"
+            if res.get("mode") != kind:
+                viol("program-does-not-do-what-it-says", ctx + f"the example program ran an {res.get('mode')}, the example is an {kind}")
+            if kind == "optimisation" and res.get("objective_as_called") != res.get("objective_expected"):
+                viol("program-optimises-the-wrong-variable", ctx + f"the example program called {res.get('objective_as_called')}, the objective of the model is {res.get('objective_expected')}")
+            if "--processors" in spec["argv"]:
+                k = int(spec["argv"][spec["argv"].index("--processors") + 1])
+                out["probes"]["example_programs_with_processes"] += 1
+                if k > 1 and not (1 <= res.get("processes_started", 0) <= k):
+                    viol("program-processes", ctx + f"asked for {k} processors, {res.get('processes_started')} processes started")
+        if want is not None and pt.get("first_only"):
+            want = None
         if want is not None and spec.get("op", "find_all") == "find_all" and not spec.get("limit"):
             if res["count"] != want:
                 viol("count-differs", ctx + f"{res['count']} solutions, known count is {want}")
@@ -444,7 +507,8 @@ def run(ch: Choices, focus: str = "C20", params: Optional[dict] = None) -> dict:
                 if bool(a) != bool(b):
                     viol("symmetry-breaking-changes-satisfiability", ctx + f"plain model has {len(a)} solutions, symmetry-broken {len(b)}")
                 out["probes"]["symmetry_subset_checks"] += 1
-        if res.get("stats") and spec.get("op", "find_all") == "find_all" and not spec.get("limit"):
+        if res.get("stats") and spec.get("op", "find_all") == "find_all" and not spec.get("limit") and not pt.get("stats_printed_before_solving") \
+                and pt.get("optimum") is None:
             if res["stats"].get("SOLVER_SOLUTION_NB") != res["count"]:
                 viol("solution-counter", ctx + f"SOLVER_SOLUTION_NB={res['stats'].get('SOLVER_SOLUTION_NB')} but {res['count']} solutions delivered")
     out["result_count"] = res.get("count")
